@@ -278,7 +278,28 @@ const PATTERNS: [&[u8]; 14] = [
     b"\xFF\xFE", b"9\xC3", b"^\xC3\xA9",
 ];
 
+/// values for the two-byte sweep: the range enum-typed fields live in, plus the extremes
+const PAIR_VALUES_QUICK: [u8; 10] = [0, 1, 2, 3, 4, 5, 6, 7, 8, 9];
+const PAIR_VALUES_THOROUGH: [u8; 17] = [0, 1, 2, 3, 4, 5, 6, 7, 8, 9, 10, 11, 12, 31, 0x7f, 0x80, 0xff];
+
+fn pair_values(tier: Tier) -> &'static [u8] {
+    match tier {
+        Tier::Quick => &PAIR_VALUES_QUICK,
+        Tier::Thorough => &PAIR_VALUES_THOROUGH,
+    }
+}
+
+fn pair_max_len(tier: Tier) -> usize {
+    match tier {
+        Tier::Quick => 8,
+        Tier::Thorough => 20,
+    }
+}
+
 struct Sweeps {
+    /// two coordinated bytes: (base frame index, cumulative start)
+    e_offsets: Vec<(usize, u64)>,
+    e: u64,
     d_offsets: Vec<u64>,
     d: u64,
     a: u64,           // header pairs
@@ -300,6 +321,16 @@ fn sweeps(tier: Tier) -> Sweeps {
     let mut c = 0u64;
     let mut d_offsets = Vec::new();
     let mut d = 0u64;
+    let mut e_offsets = Vec::new();
+    let mut e = 0u64;
+    let pv = pair_values(tier).len() as u64;
+    for (bi, (_, f)) in base_frames().iter().enumerate() {
+        if f.len() <= pair_max_len(tier) {
+            let body = (f.len() - 2) as u64;
+            e_offsets.push((bi, e));
+            e += body * (body - 1) / 2 * pv * pv;
+        }
+    }
     for (_, f) in base_frames() {
         d_offsets.push(d);
         d += ((f.len() - 2) * PATTERNS.len()) as u64;
@@ -317,6 +348,8 @@ fn sweeps(tier: Tier) -> Sweeps {
         values,
         d_offsets,
         d,
+        e_offsets,
+        e,
     }
 }
 
@@ -343,7 +376,7 @@ impl Prop for C04 {
     }
     fn sweep_len(&self, tier: Tier) -> u64 {
         let s = sweeps(tier);
-        s.a + s.b + s.c + s.d
+        s.a + s.b + s.c + s.d + s.e
     }
     fn sweep_case(&self, tier: Tier, idx: u64) -> CodecSc {
         let s = sweeps(tier);
@@ -382,6 +415,43 @@ impl Prop for C04 {
             };
         }
         let idx = idx - s.b;
+        if idx >= s.c + s.d {
+            // two coordinated bytes
+            let idx = idx - s.c - s.d;
+            let k = s.e_offsets.partition_point(|o| o.1 <= idx) - 1;
+            let (bi, start) = s.e_offsets[k];
+            let (mode, base) = &base_frames()[bi];
+            let pv = pair_values(tier);
+            let mut r = idx - start;
+            let vb = pv[(r % pv.len() as u64) as usize];
+            r /= pv.len() as u64;
+            let va = pv[(r % pv.len() as u64) as usize];
+            r /= pv.len() as u64;
+            // r indexes the pair (i < j) of body positions
+            let body = base.len() - 2;
+            let (mut i, mut j) = (0usize, 1usize);
+            let mut cnt = r as usize;
+            'find: for a in 0..body {
+                for b in a + 1..body {
+                    if cnt == 0 {
+                        i = a;
+                        j = b;
+                        break 'find;
+                    }
+                    cnt -= 1;
+                }
+            }
+            let mut f = base.clone();
+            f[2 + i] = va;
+            f[2 + j] = vb;
+            f.extend_from_slice(&successor(*mode));
+            return CodecSc {
+                mode: *mode,
+                stream: f,
+                segs: vec![],
+                note: format!("pair sweep: frame of type {} ({} bytes), byte {} := {:#04x}, byte {} := {:#04x}", base[1], base.len(), 2 + i, va, 2 + j, vb),
+            };
+        }
         if idx >= s.c {
             let idx = idx - s.c;
             let bi = s.d_offsets.partition_point(|o| *o <= idx) - 1;
@@ -422,6 +492,7 @@ impl Prop for C04 {
             "header_pairs": {"what": "every (size byte, type byte) x {compressed, uncompressed} x body fill {0x00, 0xFF}, frame of the announced length followed by two valid frames", "cases": s.a, "exhaustive_over_this_subspace": true},
             "byte_substitution": {"what": "one zero-bodied frame per packet kind (and a second accepted size for variable-length kinds), every byte position x substitute values", "base_frames": base_frames().len(), "values_per_position": s.values, "cases": s.b, "exhaustive_over_this_subspace": s.values == 256},
             "truncation": {"what": "every cut point of every base frame, followed by valid frames", "cases": s.c, "exhaustive_over_this_subspace": true},
+            "byte_pairs": {"what": "two coordinated bytes: every pair of body positions of every base frame up to the stated length x value pairs from the enumerant range", "max_frame_len": pair_max_len(tier), "values": pair_values(tier), "cases": s.e, "exhaustive_over_this_subspace": true},
             "text_patterns": {"what": "each of a list of multi-byte patterns (text escapes, codepage markers, UTF-8 sequences, version syntax) written at every body position of every base frame", "patterns": PATTERNS.iter().map(|p| hex::enc(p)).collect::<Vec<_>>(), "cases": s.d, "exhaustive_over_this_subspace": true},
         })
     }
